@@ -114,7 +114,41 @@ def gen_it(tier, rnd, stats):
     return b
 
 
-GENERATORS = {"bv": gen_bv, "it": gen_it}
+def unsym(e):
+    v = 0
+    for limb in e[1:]:
+        v = (v << 24) | limb
+    return -v if e[0] == 1 else v
+
+
+def gen_qb(tier, rnd, stats):
+    cfg = "Gen_qb_%s.cfg" % tier
+    behs, states, trans, dt = tlc_behaviours(cfg, "MC_LibQB.tla")
+    stats["mc"].append({"cfg": cfg, "role": "behaviour generator", "states": states, "transitions": trans, "behaviours": len(behs), "wall_s": round(dt, 1)})
+    stats["states"] += states
+    stats["transitions"] += trans
+    b = Beh()
+    starts = C.rotate(["qb_new", "default", "qb_with_capacity"], rnd)
+    for hist in behs:
+        b.reset()
+        qb = b.newq("QB", "u8", next(starts), Seqn.from_values([0] * rnd.choice([0, 1, 300])))
+        vals = []
+        for e in hist:
+            ev = dict(e)
+            ev["o"] = qb
+            b.add(ev)
+            if e["m"] == "qpush":
+                vals.append(e["a"][0] % 4)
+            else:
+                vals += [unsym(x) % 4 for x in e["vals"]]
+        qv = b.conv(qb, "qbuild", keep=0)
+        C.qv_observe(b, qv, len(vals), rnd)
+        ref = b.newq("QV", "u8", "collect", Seqn.from_values(vals))
+        b.eq(qv, ref)
+    return b
+
+
+GENERATORS = {"bv": gen_bv, "it": gen_it, "qb": gen_qb}
 
 
 def generate(spec, tier, rnd, stats):
